@@ -73,7 +73,7 @@ theorem handle_packet_eq_model (M : TlsMachine κ σ ο) (o : Opts) (ss : List (
       = tlsHandle M o ss p := by
   unfold Main.handle_packet
   rw [← lookup_loop M o p ss]
-  simp only [candidate, List.contains_eq_mem]
+  simp only [candidate, List.contains_eq_mem, Bool.or_comm]
   split
   · rfl
   · split <;> simp_all
